@@ -63,6 +63,8 @@ func c06Labels(s ttxStream) (bool, []string) {
 	add(s.Enhancement, "enhancement-packets")
 	add(s.NonSubtitle || s.Stuffing, "stuffing-or-non-subtitle-units")
 	add(s.LeadIn > 0, "time-origin-before-first-instance")
+	add(s.Designation == 1, "x28-designation-of-selected-magazine")
+	add(s.Designation == 2, "m29-designation-of-selected-magazine")
 	return len(s.Instances) > 0, ls
 }
 
